@@ -99,10 +99,13 @@ static int gen_poly(Poly *P, int i, int quick) {
                   n = m; for (int k = 0; k < n; k++) if (fabs(P->outer[k].lat) > g_latmax) return 1;
                   if (rev) for (int k = 0; k < n / 2; k++) { LatLng t = P->outer[k]; P->outer[k] = P->outer[n - 1 - k]; P->outer[n - 1 - k] = t; }
                   if (target < 120) target = 120; break; }
-        case 11: { /* a fat polygon with a sliver hole */
+        case 11: { /* a fat polygon with 1..3 parallel sliver holes (slanted: disjoint holes whose bounding boxes overlap) */
                   P->kind = "sliver-hole"; n = 5 + (int)vt_randn(10); if (make_loop(P->outer, n, lat0, lng0, r, 0.85, 1, 0, rev)) return 1;
-                  int hn = 4 + 2 * (int)vt_randn(3); if (make_loop(P->hole[0], hn, lat0 + 0.2 * r * (vt_rand01() - 0.5), lng0 + 0.2 * r * (vt_rand01() - 0.5) / cos(lat0), r * (0.3 + 0.4 * vt_rand01()), 0.9, 0.002 + 0.04 * vt_rand01(), vt_rand01() * 6.28, (int)vt_randn(2))) return 1;
-                  P->holes[0].numVerts = hn; P->holes[0].verts = P->hole[0]; nh = 1; if (target < 120) target = 120; break; }
+                  nh = 1 + (int)vt_randn(3); double rot = vt_rand01() * 6.28, hr = r * (nh == 1 ? 0.3 + 0.3 * vt_rand01() : 0.25 + 0.2 * vt_rand01()), sq = nh == 1 ? 0.002 + 0.04 * vt_rand01() : vt_randn(2) ? 0.01 + 0.1 * vt_rand01() : 0.1 + 0.2 * vt_rand01();   /* thin: centres only; fat: whole cells inside a band */
+                  double step = hr * (2.6 * sq + 0.05 + 0.1 * vt_rand01());      /* perpendicular spacing: more than the width of a sliver */
+                  for (int h = 0; h < nh; h++) { double off = (h - (nh - 1) / 2.0) * step; double cx = -sin(rot) * off, cy = cos(rot) * off; int hn = 4 + 2 * (int)vt_randn(3);
+                      if (make_loop(P->hole[h], hn, lat0 + cy, lng0 + cx / cos(lat0), hr, 0.9, sq, rot, (int)vt_randn(2))) return 1; P->holes[h].numVerts = hn; P->holes[h].verts = P->hole[h]; }
+                  if (target < 120) target = 120; if (nh > 1 && target < 400) target = 400; break; }
         default: { /* the boundary of a cell (or of a coarser ancestor) as the polygon: edges run exactly along cell edges */
                   P->kind = "cellshape"; int res = (int)vt_randn(14); LatLng g0 = {lat0, lng0}; H3Index c; if (latLngToCell(&g0, res, &c)) return 1; CellBoundary cb; if (cellToBoundary(c, &cb)) return 1;
                   n = cb.numVerts; for (int k = 0; k < n; k++) { P->outer[k] = cb.verts[k]; if (fabs(cb.verts[k].lat) > 1.48) return 1; } P->res = res + (int)vt_randn(3); if (P->res > 15) P->res = 15; { PLoop t; ploop_from(P->outer, n, &t); int ok = t.closes; ploop_free(&t); if (!ok) return 1; } break; }
@@ -234,6 +237,8 @@ int main(int argc, char **argv) {
     for (int i = 0; i < npoly; i++) { Poly P; if (gen_poly(&P, i, quick)) continue; fill_event(&P, maxcand); }
     /* polygons made from cell boundaries: edges and vertices coincide with those of the cells being tested (touching contacts) */
     g_force_kind = 9; for (int i = 0; i < (quick ? 160 : 1500); i++) { Poly P; if (gen_poly(&P, i, quick)) continue; fill_event(&P, maxcand); } g_force_kind = -1;
+    /* concave features: wedges cut into the rim, parallel bands of holes whose bounding boxes overlap */
+    for (int i = 0; i < (quick ? 90 : 900); i++) { Poly P; g_force_kind = 10 + (i % 3 != 0); if (gen_poly(&P, i, quick)) continue; fill_event(&P, maxcand); } g_force_kind = -1;
     for (int ares = 0; ares <= 14; ares++) for (int tres = ares + 1; tres <= 15 && tres <= ares + 5; tres++) for (int k = 0; k < (quick ? 3 : 15); k++) { Poly P; if (gen_corner_poly(&P, ares, tres, k % 3)) continue; fill_event(&P, maxcand); }
     fprintf(stderr, "events=%ld candidates=%ld ambiguous-centres=%ld\n", n_ev, n_cand, n_amb);
     vt_close(); return 0;
